@@ -142,6 +142,15 @@ claim("C06",
       TRUST + "; self-insert namings assumed away; two open findings (one-node paths of CREATE TABLE, LATERAL VIEW alias) reported as KNOWN-FINDING",
       "DESIGN.md section 4 (C06)")
 
+claim("C09",
+      "Per corpus statement the placeholder text is parsed by the real sqlfluff under ansi and under k other dialects that accept it; all trees "
+      "are symbolised with the SAME free names and the real extractors run on each; z3 decides over all namings that sources, targets, "
+      "intermediates and column pairs are identical. Quick: one dialect of each of 4 grammar families per statement; thorough: 8 seeded "
+      "dialects per statement and all 25 on /plain statements. Witnesses are replayed on the unmodified library under every dialect involved.",
+      TRUST + "; seven dialect-shape findings reported as KNOWN-FINDING (exasol CREATE VIEW, clickhouse WHERE subquery, tsql view column list, "
+      "UPDATE FROM under tsql/sqlite, tsql MERGE, MERGE INSERT clause under athena/databricks/trino, CREATE TABLE column definitions)",
+      "DESIGN.md section 4 (C09)")
+
 ALL = ["C%02d" % i for i in range(1, 19)]
 
 
